@@ -137,6 +137,8 @@ func codecBytes(c codecCase, j, r int) map[string]any {
 		b = []byte{0x80}
 	case "overflow":
 		b = bytes.Repeat([]byte{0xff}, 11)
+	case "empty":
+		b = nil
 	}
 	if c.CodeVar == "ok" {
 		n := uint64(len(digest))
